@@ -28,7 +28,7 @@ type Lab struct {
 
 type LabOptions struct {
 	Configure func(conf *engine.Configuration) // e.g. EnableMultiFetch
-	Fields    plan.FieldConfigurations          // extra field configurations (authorization rules)
+	Fields    plan.FieldConfigurations         // extra field configurations (authorization rules)
 	Resolver  resolve.ResolverOptions
 }
 
@@ -55,12 +55,27 @@ func NewLab(l *Layout, u *Universe, o LabOptions) (*Lab, error) {
 	var fields plan.FieldConfigurations
 	seenFC := map[string]int{}
 	subs := l.Subgraphs()
+	type composed struct {
+		sg  Subgraph
+		md  *plan.DataSourceMetadata
+		fcs plan.FieldConfigurations
+	}
+	var all []composed
 	for _, sg := range subs {
-		md, fcs, err := Compose(sg.SDL)
+		md, fcs, err := ComposeWith(sg.SDL, sg.ExternalKeyFields)
 		if err != nil {
 			cancel()
 			return nil, err
 		}
+		all = append(all, composed{sg, md, fcs})
+	}
+	mds := make([]*plan.DataSourceMetadata, len(all))
+	for i := range all {
+		mds[i] = all[i].md
+	}
+	AddImplicitKeys(mds)
+	for _, c := range all {
+		sg, md, fcs := c.sg, c.md, c.fcs
 		sc, err := graphql_datasource.NewSchemaConfiguration(sg.SDL, &graphql_datasource.FederationConfiguration{Enabled: true, ServiceSDL: sg.SDL})
 		if err != nil {
 			cancel()
